@@ -66,6 +66,31 @@ CHECKS = {
         note="Date-monotone histories (R3) except in the sub-generator aimed at F7; sold-percentage is judged by C13.",
         design="DESIGN.md section 4 / C10",
     ),
+    "C11": dict(
+        technique="property-based testing (Hypothesis): random injective column layouts, junk columns, permuted tables, blank rows, several sheets; parse_ods output compared field by field with the generated rows",
+        text="Generated config/spreadsheet pairs parsed in-process (Configuration + open_ods + parse_ods); every field incl. instant and offset, documented defaults, ids = sheet rows, counts, and the crypto-fee split are compared with the generated rows.",
+        note="Inputs are written with ezodf (one sample per shard cross-checked against raw content.xml); numbers = the cell's double rounded to 11 decimals; column 0 mandatory (R9).",
+        design="DESIGN.md section 4 / C11",
+    ),
+    "C12": dict(
+        category="fault_enumeration",
+        technique="fault injection driven by Hypothesis: one fault from a ~110-class catalogue at a generated applicable position of a generated valid input; fail-closed predicate on real CLI runs",
+        text="Each case is one real run of rp2_<country> on a valid base input with exactly one documented fault; oracle = non-zero exit AND error text AND no report written. Fault classes hit are listed in the evidence; a sixth of the cases also verify that the fault-free base is accepted.",
+        note="Faults only in data rows; R5/R6 ambiguities are not injected; which message is printed is not asserted.",
+        design="DESIGN.md section 4 / C12",
+    ),
+    "C16": dict(
+        technique="property-based testing (Hypothesis) of CLI totality over the option matrix country x method/schedule x language x window x -n x -a x -p crossed with generated valid inputs; crash bucketing by innermost rp2 frame",
+        text="Each case is one real run in a fresh process; oracle = exit 0, no traceback, every configured report written under the expected name and readable. Found and now guards F2, F3, F4, F5, F11 (all fixed).",
+        note="JP with -f and -t together is a refused combination (R11); schedules start no later than the first year of the history (R10).",
+        design="DESIGN.md section 4 / C16",
+    ),
+    "C18": dict(
+        technique="exhaustive ast scan of every rp2 module against a network/process deny-list + Hypothesis-generated CLI runs (valid and faulty inputs) under an interpreter audit hook with input hashing",
+        text="Static half enumerates the finite set of modules completely; dynamic half judges socket/ssl/http/subprocess/os.exec/fork events, every path opened for writing or renamed/removed/created, import_module calls from rp2 frames, SHA-256 and mtime of the inputs.",
+        note="Audit hooks see interpreter-level events only; third-party dependencies are trusted base.",
+        design="DESIGN.md section 4 / C18",
+    ),
 }
 
 NOT_APPLICABLE = []
